@@ -79,6 +79,14 @@ def faultReply (b : Backend) (kind : String) (nice : Reply) (g : Nat) : Reply :=
   | "infotext" => { out := .info, flags := [.hash] }
   | "garbled" => { nice with echoOk := false }
   | "silence" => { arr := .silent }
+  -- console: the device stops in the middle of a line and stays connected: nothing the program
+  -- waits for ever arrives
+  | "stall_partial" => { arr := .silent }
+  -- HTTP: status line, headers and half of the body arrive, then nothing more while the
+  -- connection stays open: reading the reply never completes
+  | "stall_body" => { arr := .silent }
+  -- HTTP: an error status without any body
+  | "status_nobody" => { status200 := false }
   | "truncated" =>
     if g == 0 then { arr := .silent }
     else if nice.arr == .noPrompt then nice else { nice with arr := .noPrompt }
@@ -125,12 +133,14 @@ def mkDev (b : Backend) (sh : Shape) (pos : Option Nat) (kind : String) : Dev :=
   -- the bytes `WARNING: …` are a notice in the reply to a configuration command and unexpected
   -- output in place of the output of a show command
   let kind := if kind == "warntext" && showLike l then "unexpected" else kind
+  -- the reply to the NSX log-in request has no body (the token is a header): no inside to stall in
+  let kind := if kind == "stall_body" && l == "session create" then "-" else kind
   match pos with
   | none => nice
   | some p =>
     if gc == p then faultReply b kind nice gc
     else if gc > p && !http then
-      (if kind == "silence" || kind == "truncated" then { arr := .silent }
+      (if kind == "silence" || kind == "truncated" || kind == "stall_partial" then { arr := .silent }
        else if kind == "close" then { arr := .closed } else nice)
     else nice
 
